@@ -511,19 +511,37 @@ class Evaluator:
             return None
         if isinstance(e, ast.Lambda):
             return Closure(e, env, f)
-        if isinstance(e, (ast.ListComp, ast.GeneratorExp, ast.SetComp)) and len(e.generators) == 1:
-            gen = e.generators[0]
-            it = self.expr(gen.iter, env, f, depth)
-            if isinstance(it, dict):
-                it = tuple(it)
-            if not isinstance(it, (tuple, list)):
-                raise AnalysisError("comprehension over a non-concrete sequence (%s)" % f.loc(e))
+        if isinstance(e, (ast.ListComp, ast.GeneratorExp, ast.SetComp, ast.DictComp)):
             out = []
-            sub = dict(env)
-            for x in it:
-                self.assign(gen.target, x, sub, f)
-                if all(self.truth(self.expr(c, sub, f, depth), c) for c in gen.ifs):
-                    out.append(self.expr(e.elt, sub, f, depth))
+
+            def rec(i, sub):
+                if i == len(e.generators):
+                    if isinstance(e, ast.DictComp):
+                        out.append((self.expr(e.key, sub, f, depth), self.expr(e.value, sub, f, depth)))
+                    else:
+                        out.append(self.expr(e.elt, sub, f, depth))
+                    return
+                gen = e.generators[i]
+                it = self.expr(gen.iter, sub, f, depth)
+                if isinstance(it, dict):
+                    it = tuple(it)
+                if isinstance(it, set):
+                    it = tuple(it)
+                if not isinstance(it, (tuple, list)):
+                    raise AnalysisError("comprehension over a non-concrete sequence (%s)" % f.loc(e))
+                for x in it:
+                    sub2 = dict(sub)
+                    self.assign(gen.target, x, sub2, f)
+                    if all(self.truth(self.expr(c, sub2, f, depth), c) for c in gen.ifs):
+                        rec(i + 1, sub2)
+            rec(0, dict(env))
+            if isinstance(e, ast.SetComp):
+                try:
+                    return set(out)
+                except TypeError:
+                    raise AnalysisError("set comprehension over unhashable abstract values (%s)" % f.loc(e))
+            if isinstance(e, ast.DictComp):
+                return dict(out)
             return out
         raise AnalysisError("expression %s not supported by the table extractor (%s)" % (type(e).__name__, f.loc(e)))
 
